@@ -31,6 +31,13 @@ CHECKS += [
      "note": "sync.Mutex atomicity and channel happens-before are assumed (partial w.r.t. the Go runtime). Theorems assume values < 2^62 and no panics. Liveness is stated as a safety invariant on quiescent states. Concurrent mixes are supporting evidence only. WaitEmpty is not covered."},
 ]
 
+CHECKS += [
+    {"id": "C41",
+     "technique": "Coq proof (refinement over all operation histories) about an executable model + T-const (new-node height read from the source) + correspondence of the extracted model with the real package through an in-package overlay test",
+     "text": "For every operation history the AVL tree map of internal/vkgo/pkg/algo refines a sorted association list (Get/Set/Delete/GetPtr/Front/Back/Empty/LenMoreThan1, BST order, no panic) and keeps the AVL balance invariant (strict AVL with exact cached heights for new-node height 1, the repaired code; the looser invariant and the refutation for height 0 are kept, F10 fixed in /repo). The circular slice refines a FIFO list with indexing, Reserve, Clear, Swap, DeepAssign; its internal panics are unreachable and unused slots are zeroed; complete index bounds checking is refuted with a concrete history (F15 known). 354k histories (all short ones) per quick run compared token by token.",
+     "note": "Keys are integers ordered by < (the only in-repo instantiation is uint32). Go code is modelled, not verified: model = code is established on the enumerated histories. No axioms."},
+]
+
 _claimed = {c["id"] for c in CHECKS}
 _reasons = {
     "C32": "PHP serializers: no PHP/KPHP interpreter exists in the sandbox and nothing can be installed, so generated PHP cannot be executed; neither a correspondence check nor a failing-input search can exist (DESIGN.md section 8)",
